@@ -7,7 +7,7 @@ with tempfile.TemporaryDirectory() as d:
     x = os.path.join(d, 'j.xml')
     env = dict(os.environ); env.pop('THERMOSTEAM_VERIF', None)
     r = subprocess.run(['/venv/bin/python', '-m', 'pytest', '-ra', '-q', '-p', 'no:cacheprovider', '--timeout=900',
-                        '--continue-on-collection-errors', f'--junitxml={x}'], cwd='/repo', env=env,
+                        '--continue-on-collection-errors', f'--junitxml={x}'], cwd=os.environ.get('BASELINE_REPO', '/repo'), env=env,
                        stdout=subprocess.PIPE, stderr=subprocess.STDOUT, text=True)
     passed = set()
     for tc in ET.parse(x).getroot().iter('testcase'):
